@@ -348,7 +348,9 @@ def rule_carried(ctx, only=None):
     fi = ctx.fn('dimarray.lib.stats.percentile')
     A = P_('a')
     ev = run(ctx, fi, mode='join')
-    okp = any(T.call_name(e.a) == 'update' and e.a[2] == (('attr', A, 'attrs'),) for p in ev.paths for e in p.calls('update'))
+    # (a itself, or the array _deal_with_axis(a, axis) hands back: `a` unchanged, or a.flatten(...) for a tuple of dimensions, which carries the attrs - see 'flatten' above)
+    GROUPED = ('item', ('call', ('name', '_deal_with_axis'), (A, P_('axis')), ()), 0)
+    okp = any(T.call_name(e.a) == 'update' and e.a[2] in ((('attr', A, 'attrs'),), (('attr', GROUPED, 'attrs'),)) for p in ev.paths for e in p.calls('update'))
     if okp:
         ctx.holds('R3', 'percentile carries a.attrs')
     else:
